@@ -173,10 +173,12 @@ def main():
     for r in results:
         functions.append({'contract': r['contract'], 'target': r.get('target'), 'status': r['status'],
                           'paths': r.get('paths'), 'source_digest': r.get('source_digest'),
-                          'reason': r.get('reason'), 'assumed': r.get('assumed')})
+                          'reason': r.get('reason'), 'assumed': r.get('assumed'), 'bounded': r.get('bounded')})
         if r['status'] != 'ok':
             undecided.append({'contract': r['contract'], 'status': r['status'], 'reason': r.get('reason')})
         for oid, o in r['obligations'].items():
+            if r.get('bounded'):
+                o['bounded'] = r['bounded']      # contract over a bounded instance of the function: never counted as proved
             obligations[oid] = o
             solver_time += o.get('time_s', 0.0)
     # ---- 2. finite tables / structural obligations (kinds E, D1, C) --------------------
@@ -245,7 +247,14 @@ def main():
             rp = write_replay(prop, 'standin', {'module': where, 'failure': item})
             print('VIOLATION property=%s replay=%s' % (prop, rp))
             print('   %s: %s' % (item['check'], item['detail'][:200]))
-    main_obl = {k: v for k, v in obligations.items() if '|kf:' not in k}
+    bounded_obl = {k: v for k, v in obligations.items() if '|kf:' not in k and v.get('bounded')}
+    for cid in sorted({k.split('#')[0] for k in bounded_obl}):
+        mine = {k: v for k, v in bounded_obl.items() if k.split('#')[0] == cid}
+        standins.append({'name': 'bounded:contract %s' % cid, 'bound': list(mine.values())[0]['bounded'],
+                         'evaluations': len(mine), 'distinct_nontrivial': len(mine),
+                         'result': 'held' if all(v['verdict'] == 'proved' for v in mine.values()) else 'see obligations',
+                         'wall_s': round(sum(v.get('time_s', 0.0) for v in mine.values()), 2)})
+    main_obl = {k: v for k, v in obligations.items() if '|kf:' not in k and not v.get('bounded')}
     n_obl = len(main_obl)
     n_dis = sum(1 for o in main_obl.values() if o['verdict'] == 'proved')
     n_obl -= sum(1 for k, o in main_obl.items() if o['verdict'] == 'unknown' and k.endswith('#exit-reachable'))
